@@ -288,3 +288,9 @@ mod tests {
         assert_eq!(b64("foobar"), "Zm9vYmFy");
     }
 }
+
+/// verif hook: see `crate::verif::base64`.
+#[cfg(feature = "verif-hooks")]
+pub(crate) fn verif_base64(bytes: &[u8]) -> String {
+    base64_standard(bytes)
+}
